@@ -19,6 +19,18 @@ CHECKS = {
              "Sizes <= 6 sites / <= 40 terms / dense dimension <= 2048.",
         technique="property-based testing (Hypothesis) with dense reference-model oracle and differential/metamorphic swap relation",
     ),
+    "C02": dict(
+        category="exploration",
+        text="Generated (basis list, real term table, two independent tree topologies) cases: every tree constructor (linear, binary, "
+             "general/binary/ternary MCTDH with contraction options, T3NS) and random trees with multi-basis nodes and dummy nodes as "
+             "root/internal/leaf; TTNO built with both decomposition algorithms and compared with the harness dense reference "
+             "(library todense with explicit and default order AND an independent numpy contraction of the raw node tensors), with "
+             "the chain MPO and between the two trees; structural promises of each constructor, node ranks/shapes, labels of "
+             "charge-definite operators.",
+        design_ref="DESIGN.md §4 C02",
+        note="Trusted: numpy dense algebra, BasisSet.op_mat. Real operators only (TTNO asserts it); <= 6 basis sets, <= 7 nodes.",
+        technique="property-based testing (Hypothesis) with dense reference oracle and topology-independence metamorphic relation",
+    ),
     "C03": dict(
         category="exploration",
         text="Model-based testing over generated operation histories: a program of constructors, arithmetic (add, sub, scale, "
@@ -113,6 +125,31 @@ CHECKS = {
         note="Trusted: numpy eigh-based exponentials, harness ladder matrices for the local Hamiltonian; dense Holstein H via Mpo.todense (C16). "
              "tau*||H|| <= 3; tree purification is covered in C12.",
         technique="property-based testing (Hypothesis) with dense Gibbs/propagator oracle, algebraic replicas and a metamorphic offset relation",
+    ),
+    "C11": dict(
+        category="exploration",
+        text="Model-based testing of tree states over generated topologies (1-7 nodes, multi-basis and dummy nodes, auxiliary-space "
+             "trees): programs of random/product states, sums, complex superpositions, scalings, TTNO application (incl. partial "
+             "operators), canonicalisation, pushes of the centre, lossless and truncating compression, norms, expectations, one- and "
+             "two-body RDMs of nodes and of single degrees of freedom, entropies, mutual information, bond spectra, conversion "
+             "from chain states, executed with a dense model in lock step; metamorphic twin with permuted children lists; isometry, "
+             "bond bounds, label validity; truncation obeys the C05 bounds per edge.",
+        design_ref="DESIGN.md §4 C11",
+        note="Trusted: numpy dense algebra / partial traces; independent raw-tensor contraction. TTNS.add with differing prefactors is outside "
+             "the domain (DESIGN §3.9).",
+        technique="model-based property testing (Hypothesis-generated TTNS programs, dense reference in lock step, children-permutation metamorphic twin)",
+    ),
+    "C12": dict(
+        category="exploration",
+        text="Generated (tree, real Hermitian Hamiltonian, random TTNS, scheme, step, real/imaginary time) cases in six modes: VMF / one-site "
+             "PS / two-site PS at verified full bond dimension (1-4 successive calls) vs the dense propagator; P&C RK4 vs the Taylor-4 "
+             "replica; norm and energy conservation of one-site PS at bond 1-3; linear tree vs the chain implementation; bond limit; "
+             "optimize_ttns energies vs exact diagonalisation in the sector (variational bound, equality on two-node trees); sector, "
+             "labels and input-unchanged after every call.",
+        design_ref="DESIGN.md §4 C12",
+        note="Trusted: numpy eigh-based propagators. ||H||=1, ||H||t in [0.03,2], dense dimension <= 128. Projector-splitting schemes carry "
+             "their O(dt^3) splitting error in the oracle.",
+        technique="property-based testing (Hypothesis) with dense-propagator / exact-diagonalisation oracle and chain-vs-tree differential relation",
     ),
     "C13": dict(
         category="exploration",
